@@ -12,7 +12,7 @@ EXPLANATION = (
     'caller passing this run\'s pair hash; (R3) trust_base is exactly loaded.is_some() and reaches reconcile unchanged, base derives '
     'only from the loaded archive or an empty map; (R4) in reconcile the base lookup is guarded by trust_base and is the constant None '
     'otherwise, and that value is what reconcile_path receives; (R5) the decision DAG of reconcile_path never yields DeleteA/DeleteB '
-    'when base is None (C18 engine); (R6) remove_file in the bisync graph occurs only on the DeleteA/DeleteB arms. '
+    'when base is None (C18 engine); (R6) remove_file in the bisync graph occurs only on the DeleteA/DeleteB arms; (R7) every root-dependent value hashed into the pair key passes through canonicalize (the key names directories, not spellings). '
     'Not decided: behaviour of serde_json on malformed input (assumed to return Err).')
 ASSUMPTIONS = ['serde_json::from_slice returns Err for truncated / garbage / wrong-shape input',
                'std::fs::read returns Err for a missing file']
